@@ -383,23 +383,71 @@ def MvGaussian.new_unchecked (mu : Vec α) (cov : Mat α) : Except (Err α) (MvG
   | .error _ => .error panicErr
   | .ok cache => .ok ⟨mu, cov, cache⟩
 
-/-- `MvGaussian::set_mu` (`mvg.rs:324-334`) -/
-def MvGaussian.set_mu (self : MvGaussian α) (mu : Vec α) : Except (Err α) (MvGaussian α) :=
-  if mu.length ≠ nrows self.cov then                                                 -- :325
-    .error (Err.mk "MuCovDimensionMismatch" [ofNatR mu.length, ofNatR (nrows self.cov)])
-  else .ok { self with mu := mu }                                                    -- :331
+/-- `MvgCache::from_chol` (`mvg.rs:36-39`) -/
+def MvgCache.from_chol (l : Mat α) : MvgCache α := ⟨l, cholInverse l⟩
 
-/-- `MvGaussian::set_cov` (`mvg.rs:372-394`): the cache is REPLACED by `from_cov(&cov)` of the new matrix (:388-391) -/
-def MvGaussian.set_cov (self : MvGaussian α) (cov : Mat α) : Except (Err α) (MvGaussian α) :=
+/-- `MvgCache::cov` (`mvg.rs:42-45`): `l() * l()ᵀ` — the CLEAN factor `l()` (upper triangle zero), which is what
+    `cov_chol` is in this model (`l_dirty()` would keep the entries of the input above the diagonal) -/
+def MvgCache.cov (c : MvgCache α) : Mat α := matMul c.cov_chol (transpose c.cov_chol)
+
+/-- `MvGaussian::new_cholesky` (`mvg.rs:214-229`), `l` = the factor of the supplied `Cholesky` -/
+def MvGaussian.new_cholesky (mu : Vec α) (l : Mat α) : Except (Err α) (MvGaussian α) :=
+  let cov := matMul l (transpose l)                                                  -- :218-219
+  if mu.length ≠ nrows cov then                                                      -- :220
+    .error (Err.mk "MuCovDimensionMismatch" [ofNatR mu.length, ofNatR (nrows cov)])
+  else .ok ⟨mu, cov, MvgCache.from_chol l⟩                                           -- :226-227
+
+/-- `MvGaussian::new_cholesky_unchecked` (`mvg.rs:242-249`): the covariance is rebuilt by `MvgCache::cov` -/
+def MvGaussian.new_cholesky_unchecked (mu : Vec α) (l : Mat α) : MvGaussian α :=
+  let cache := MvgCache.from_chol l                                                  -- :246
+  ⟨mu, cache.cov, cache⟩                                                             -- :247-248
+
+/-- `emit_params` (`mvg.rs:115-120`) -/
+def MvGaussian.emit_params (self : MvGaussian α) : Vec α × Mat α := (self.mu, self.cov)
+
+/-- `from_params` (`mvg.rs:122-124`) = `new_unchecked` -/
+def MvGaussian.from_params (p : Vec α × Mat α) : Except (Err α) (MvGaussian α) := MvGaussian.new_unchecked p.1 p.2
+
+/-- nalgebra `==` on vectors: same length, all entries `==` (NaN is not equal to itself) -/
+def vecEq (x y : Vec α) : Bool := x.length == y.length && (List.zipWith (fun a b => feq a b) x y).all id
+/-- nalgebra `==` on matrices: same shape, all entries `==` -/
+def matEq (a b : Mat α) : Bool :=
+  nrows a == nrows b && ncols a == ncols b && (List.zipWith (fun r q => vecEq r q) a b).all id
+
+/-- `PartialEq` (`mvg.rs:133-137`): parameters only, the cache is ignored -/
+def MvGaussian.eq (a b : MvGaussian α) : Bool := vecEq a.mu b.mu && matEq a.cov b.cov
+
+/-- `MvGaussian::set_mu` (`mvg.rs:324-334`) as a state transformer: (the object AFTER the call, the `Result`).
+    On the error path nothing has been assigned. -/
+def MvGaussian.set_mu_st (self : MvGaussian α) (mu : Vec α) : MvGaussian α × Except (Err α) Unit :=
+  if mu.length ≠ nrows self.cov then                                                 -- :325
+    (self, .error (Err.mk "MuCovDimensionMismatch" [ofNatR mu.length, ofNatR (nrows self.cov)]))
+  else ({ self with mu := mu }, .ok ())                                              -- :331-332
+
+/-- `MvGaussian::set_cov` (`mvg.rs:372-394`) as a state transformer.  The `?` on `MvgCache::from_cov(&cov)` (:388) returns
+    BEFORE `self.cov = cov` (:389): a rejected matrix leaves the object untouched; on success the cache is REPLACED by
+    the one of the new matrix (:390-391). -/
+def MvGaussian.set_cov_st (self : MvGaussian α) (cov : Mat α) : MvGaussian α × Except (Err α) Unit :=
   let cov_rows := nrows cov                                                          -- :376
   if self.mu.length ≠ cov_rows then                                                  -- :377
-    .error (Err.mk "MuCovDimensionMismatch" [ofNatR self.mu.length, ofNatR cov_rows])
+    (self, .error (Err.mk "MuCovDimensionMismatch" [ofNatR self.mu.length, ofNatR cov_rows]))
   else if cov_rows ≠ ncols cov then                                                  -- :382
-    .error (Err.mk "CovNotSquare" [ofNatR cov_rows, ofNatR (ncols cov)])
+    (self, .error (Err.mk "CovNotSquare" [ofNatR cov_rows, ofNatR (ncols cov)]))
   else
     match MvgCache.from_cov cov with                                                 -- :388
-    | .error e => .error e
-    | .ok cache => .ok { self with cov := cov, cache := cache }                      -- :389-391
+    | .error e => (self, .error e)
+    | .ok cache => ({ self with cov := cov, cache := cache }, .ok ())                -- :389-392
+
+/-- the setter in the `Except` convention of the generated model (`&mut self` ↦ the new `self`) -/
+def MvGaussian.set_mu (self : MvGaussian α) (mu : Vec α) : Except (Err α) (MvGaussian α) :=
+  match self.set_mu_st mu with
+  | (s, .ok _) => .ok s
+  | (_, .error e) => .error e
+
+def MvGaussian.set_cov (self : MvGaussian α) (cov : Mat α) : Except (Err α) (MvGaussian α) :=
+  match self.set_cov_st cov with
+  | (s, .ok _) => .ok s
+  | (_, .error e) => .error e
 
 /-- `ln_f` (`mvg.rs:420-434`): `diff = x − μ`; `det_sqrt` = product of the diagonal of the Cholesky factor;
     `term = (diffᵀ · cov_inv · diff)[0]` -/
@@ -531,6 +579,22 @@ def InvWishart.mode (self : InvWishart α) : Option (Mat α) :=
 def InvWishart.scatter_of_draws (p : Nat) (xs : List (Vec α)) : Mat α :=
   xs.foldl (fun acc x => madd acc (outer x x)) (mzeros p p)
 
+/-- `InvWishart::draw` (`wishart.rs:183-196`) with the standard-normal variates supplied: `zs` = the `df` vectors of
+    variates consumed by `mvg.sample(self.df, rng)`; the two `try_inverse().unwrap()` and `new_unchecked` can panic -/
+def InvWishart.draw_z (self : InvWishart α) (zs : List (Vec α)) : Except (Err α) (Mat α) :=
+  let p := nrows self.inv_scale                                                      -- :184
+  match inverse self.inv_scale with                                                  -- :185
+  | none => .error panicErr
+  | some scale =>
+    match MvGaussian.new_unchecked (vzeros p) scale with                             -- :186
+    | .error e => .error e
+    | .ok mvg =>
+      let xs := zs.map mvg.draw_z                                                    -- :187
+      let y := InvWishart.scatter_of_draws p xs                                      -- :188-194
+      match inverse y with                                                           -- :195
+      | none => .error panicErr
+      | some r => .ok r
+
 end IW
 
 -- =================================================================================================================
@@ -596,6 +660,22 @@ def NormalInvWishart.ln_f (self : NormalInvWishart α) (x : MvGaussian α) : Exc
     match iw.ln_f x.cov with                                                         -- :276
     | .error e => .error e
     | .ok b => .ok (mvg.ln_f x.mu + b)
+
+/-- `NormalInvWishart::draw` (`niw.rs:281-290`) with the variates supplied (`zs` for the inverse-Wishart part, `z` for the
+    mean): `Σ ~ W⁻¹(Ψ, ν)`, then `μ = draw of N(μ₀, Σ/κ)` (a SECOND Gaussian built on `Σ/κ`, so `μ = μ₀ + chol(Σ/κ)·z`),
+    result `MvGaussian::new(μ, Σ).unwrap()` -/
+def NormalInvWishart.draw_z (self : NormalInvWishart α) (zs : List (Vec α)) (z : Vec α) : Except (Err α) (MvGaussian α) :=
+  let iw : InvWishart α := ⟨self.scale, self.df⟩                                     -- :282
+  match iw.draw_z zs with                                                            -- :283
+  | .error e => .error e
+  | .ok sigma =>
+    match MvGaussian.new_unchecked self.mu (mdivs sigma self.k) with                 -- :285-286
+    | .error e => .error e
+    | .ok mvg =>
+      let mu := mvg.draw_z z                                                         -- :287
+      match MvGaussian.new mu sigma with                                             -- :289
+      | .error _ => .error panicErr
+      | .ok g => .ok g
 
 /-- `ln_z` (`mvg_prior.rs:12-21`) -/
 def ln_z (k : α) (df : Nat) (scale : Mat α) : α :=
